@@ -38,14 +38,14 @@ def rand_sentence(rng, K, nmax=5, lo=40, n=None, full=True):
     tag = numpy.array([[-v / 8.0 for v in rng.sample(range(0, max(lo, K) + 1), K)] for _ in range(n)], dtype=numpy.float32)
     dep = numpy.array([[-rng.randint(0, lo) / 8.0 for _ in range(n + 1)] for _ in range(n)], dtype=numpy.float32)
     toks = [gen.rand_token(rng, 'en', full=full, plain=rng.random() < 0.5) for _ in range(n)]
-    if rng.random() < 0.15:
+    if rng.random() < 0.25:
         # some bare strings among the Token objects (Tree.make_terminal accepts Union[str, Token]; depccg.parsing._type_check looks at the very
         # first token of a document only, which one_batch keeps a Token), bracket escapes among them
         toks = [(rng.choice(STR_WORDS) if rng.random() < 0.6 else (gen.rand_word(rng) or 'x')) if rng.random() < 0.5 else t for t in toks]
     return Sentence(toks, tag, dep)
 
 
-STR_WORDS = ['-LRB-', '-RRB-', '-LCB-', '-RCB-', '-LSB-', '-RSB-', '(', ')', 'the', 'dog', 'U.S.', "n't", '--', '1/2']
+STR_WORDS = ['-LRB-', '-RRB-', '-LCB-', '-RCB-', '-LSB-', '-RSB-', '-LRB-', '-RRB-', '(', ')', 'the', 'U.S.', "n't", '1/2']
 
 
 def word_of(t):
@@ -79,8 +79,9 @@ def synthetic_setup(rng, ncat=6, multi_label=True):
         # with a period coprime to 256
         x, y = rng.choice(cats), rng.choice(cats)
         per = [c for c in cats][:3] if len(cats) >= 3 else cats
-        table[(x, y)] = [CombinatorResult(cat=per[i % len(per)], op_string=f'w{i}', op_symbol=f'<w{i}>', head_is_left=((i % 2 == 0) if mixed else hl))
-                         for i in range(rng.randint(257, 300))]
+        dead = Category.parse('Zdead')          # a category no rule consumes and no root set contains: the first 256 results lead nowhere,
+        table[(x, y)] = [CombinatorResult(cat=(dead if i < 256 else per[i % len(per)]), op_string=f'w{i}', op_symbol=f'<w{i}>',       # so a parse through this pair uses an index >= 256
+                                          head_is_left=((i % 2 == 0) if mixed else hl)) for i in range(rng.randint(259, 300))]
     if rng.random() < 0.15 and table:
         # a rule name / symbol is any string - the empty one included
         k_ = rng.choice(list(table))
